@@ -558,3 +558,31 @@ def target_names(t):
     if isinstance(t, ast.Starred):
         return target_names(t.value)
     return []
+
+
+def lazy_accessor_init(ctx, R):
+    """Job.document / Job.stores create the job directory on first access with init(validate_statepoint=False): that mode returns as soon as the directory exists.
+    The validating mode loads the state point file and (re)writes it when that fails - a write that merely *reading* job.document must not cause."""
+    out = []
+    for q in ("signac.job:Job.document", "signac.job:Job.stores"):
+        fi = ctx.prog.funcs.get(q)
+        k = q + "|lazy-init"
+        if fi is None:
+            out.append(ctx.inc(R, None, None, f"{q} not found", construct=k))
+            continue
+        inits = [c for c in body_nodes(fi) if isinstance(c, ast.Call) and "signac.job:Job.init" in targets_of(ctx, fi, c)]
+        if not inits:
+            out.append(ctx.inc(R, fi, fi.node, "accessor does not call init()", construct=k))
+        for c in inits:
+            v = kwarg(c, "validate_statepoint")
+            if v is None and len(c.args) >= 2:
+                v = c.args[1]
+            val = ctx.fold(v, fi) if v is not None else True
+            if val is False:
+                out.append(ctx.ok(R, fi, c, "first access creates the job directory without re-validating / re-writing the state point file", construct=k))
+            elif val is True:
+                out.append(ctx.viol(R, fi, c, f"{q.split('.')[-1]} calls the validating init(): merely evaluating job.{q.split('.')[-1]} loads the state point file and writes it when it is missing or "
+                                    "unreadable - sync_jobs evaluates dst.document also in a dry run, so a dry run then creates signac_statepoint.json in the destination", construct=k))
+            else:
+                out.append(ctx.inc(R, fi, c, "validate_statepoint argument is not a constant", construct=k))
+    return out
